@@ -886,3 +886,7 @@ Proof.
   { eapply fwf_sub; [|apply (faces_of_wf (map_patch m p))]. intros g. apply map_face_faces. }
   rewrite (canon_In _ _ _ _ W). rewrite map_face_faces. apply faces_of_In.
 Qed.
+
+(* ================================================================ C15 *)
+(* PLACEHOLDER (refined below) *)
+Definition exportable_b (d : domain) : bool := Nat.leb 2 (length (d_boundary d)).
